@@ -134,7 +134,8 @@ def convert(trace_path, out_path):
                     if a <= o < b:
                         per_call.setdefault(ci, []).append(t)
                         break
-            out.write(json.dumps({"e": "Reset", "sc": sc, "run": run, "tty": inv["mode"] == "tty", "batch": inv["mode"] == "h2", "src": inv["src"]}) + "\n")
+            # tty here = "smart terminal" (status line overprinting): a terminal and not -v
+            out.write(json.dumps({"e": "Reset", "sc": sc, "run": run, "tty": inv["mode"] == "tty" and not inv["verbose"], "batch": inv["mode"] == "h2", "src": inv["src"]}) + "\n")
             for ci, (kind, fields, src_line) in enumerate(inv["calls"]):
                 obs = per_call.get(ci, [])
                 if kind == "Other" and not obs:
